@@ -15,6 +15,9 @@ Decides:
  U unescaped census every Escape::Unescaped / UnescapedAtNewline payload is a constant, or a `name` / `arg` parameter of
                     Roff::control* / Roff::escape whose every call site passes constants (interprocedural); text of the
                     document reaches the roff monoid only through plaintext (Special*) or control arguments (Spaces).
+ C capture pairing  render_roff: every block kind that turns the header-capture flag on turns it off again, writes the request
+                    and empties the buffer on EVERY path of its end arm (walker table per Block variant); no other kind
+                    touches the flag.
  S sections         extract_sections records the level itself, walks the item list produced by append_meta directly (every
                     HelpItem::Command, no type-filtered view) and recurses with the command's own meta/info;
                     collect_html and render_manpage both build their documents from extract_sections + the --help pipeline.
@@ -29,7 +32,7 @@ from parsers import *
 LEVEL = 'other'
 EXPLANATION = __doc__
 ASSUMPTIONS = ['roff treats a line as a request only if it starts with `.` or `\'`; HTML text needs only < and > escaped outside attributes']
-FLOORS = {'T.html-taint': 2, 'G.html-tags': 14, 'P.token-pairing': 15, 'E.roff-escaper': 6, 'U.unescaped': 12, 'S.sections': 7}
+FLOORS = {'T.html-taint': 2, 'G.html-tags': 14, 'P.token-pairing': 15, 'E.roff-escaper': 6, 'U.unescaped': 12, 'S.sections': 7, 'C.capture': 4}
 
 def run(ctx):
     cfgs = ['doc', 'all'] if ctx.tier == 'quick' else ['doc', 'all', 'autocomplete,docgen', 'docgen,dull-color']
@@ -41,6 +44,7 @@ def run(ctx):
         ctx.guard(pairing, ctx, cfg, fs)
         ctx.guard(escaper, ctx, cfg, fs)
         ctx.guard(unescaped, ctx, cfg, fs)
+        ctx.guard(capture_pairing, ctx, cfg, fs)
         ctx.guard(sections, ctx, cfg, fs)
 
 def out_string(b):
@@ -473,6 +477,47 @@ def unescaped(ctx, cfg, fs):
     fe = fs.one(r'roff::Font::escape$')
     vals = [st['rv'] for i, k, st in fe.stmts() if st['k'] == 'assign' and st['lhs'] == [0, []]]
     ctx.ob('U.unescaped', 'Font::escape:constants', bool(vals) and all(v['k'] == 'use' and v['op'][0] == 'c' for v in vals), 'Font::escape returns only constant font switches', where=fe.where(), cfg=cfg)
+
+def capture_pairing(ctx, cfg, fs):
+    """render_roff diverts the text of headers into a capture buffer (flag set at BlockStart) and turns it into the
+    argument of .SH/.SS at BlockEnd.  While the flag is set ALL text is diverted, so every block kind that sets it
+    must clear it again on EVERY path of its BlockEnd arm, and flush the buffer there; otherwise item names and
+    help text that follow vanish from the page and surface later inside a request argument."""
+    b = ctx.look(fs.one(r'buffer::manpage::<impl buffer::Doc>::render_roff$'))
+    bsw = [s_ for s_ in switches(b) if s_.kind == 'enum' and s_.enum == 'buffer::Block']
+    tsw = [s_ for s_ in switches(b) if s_.kind == 'enum' and s_.enum == 'buffer::Token']
+    nx = [c for c in b.calls() if c.is_(r'Iterator>?::next$') and 'buffer::Token' in c.full]
+    if len(bsw) < 2 or not tsw or len(nx) != 1:
+        raise Broken('render_roff: token loop / Block switches not found')
+    start_t = tsw[0].target('BlockStart'); end_t = tsw[0].target('BlockEnd')
+    ssw = [s_ for s_ in bsw if only_via_edge(b, tsw[0].b, start_t, s_.b)]; esw = [s_ for s_ in bsw if only_via_edge(b, tsw[0].b, end_t, s_.b)]
+    if not ssw or not esw:
+        raise Broken('render_roff: start/end arms not found')
+    def table(sw_, entry):
+        tab = {}
+        for V in fs.variants('buffer::Block'):
+            w = Walker(b, variant_of={pkey(sw_.place): V}, max_paths=300); w.stop = {nx[0].bb}
+            rows = []
+            for pth in w.run(entry, {}):
+                if pth.end != 'stop':
+                    continue
+                flag = [v for (_, pl, v) in pth.writes if v is not UNKNOWN and v[0] == 'c' and isinstance(v[1], bool)]
+                places = {pl for (_, pl, v) in pth.writes if v is not UNKNOWN and v[0] == 'c' and isinstance(v[1], bool)}
+                rows.append((flag[-1][1] if flag else None, tuple(sorted(places)), tuple(c.name.split('::')[-1] for (_, c) in pth.calls if c.is_(r'roff::Roff::control$', r'String::clear$'))))
+            tab[V] = rows
+        return tab
+    st = table(ssw[0], start_t); en = table(esw[0], end_t)
+    openers = sorted(V for V, rows in st.items() if any(r[0] is True for r in rows))
+    if not openers:
+        raise Broken('render_roff: no block kind turns the capture flag on')
+    for V in openers:
+        rows = en[V]
+        ok = bool(rows) and all(r[0] is False and 'control' in r[2] and 'clear' in r[2] for r in rows) and all(r[0] is True for r in st[V])
+        ctx.ob('C.capture', 'render_roff:Block::%s' % V, ok,
+               'Block::%s turns text capture on at its start (%s); its end turns it off, writes the request and empties the buffer on every path: %s' % (
+                   V, sorted({r[0] for r in st[V]}), sorted({(r[0], r[2]) for r in rows}, key=str)), where=b.where(esw[0].b), cfg=cfg)
+    others = sorted(V for V in st if V not in openers and any(r[0] is not None for r in en[V] + st[V]))
+    ctx.ob('C.capture', 'render_roff:only-headers-capture', not others, 'no other block kind touches the capture flag: %s' % (others or 'none'), where=b.where(), cfg=cfg)
 
 def sections(ctx, cfg, fs):
     b = ctx.look(fs.one(r'^buffer::extract_sections$'))
